@@ -4,6 +4,13 @@ PENDING = "not yet claimed in this revision: model/theorems under construction (
 NOT_APPLICABLE = {("C%02d" % i): PENDING for i in range(1, 21)}
 
 META = {
+    "C12": dict(
+        text="Kernel-checked, by induction over ANY operation list and any number of handles: counter_conservation (shared + pending in all handles + discarded by reset = everything ever added), "
+             "flush_exact, flush_idempotent, reset_discards_only_local, clone_empty; histogram_conservation (shared sample count + pending in live local histograms + cleared = all observations, dropped handles included), "
+             "drop_flushes_histogram (drop = flush), hist_flush_idempotent, hist_clone_empty, absorb_counts (per-bucket addition); vec_drop_flushes, vec_clone_empty for the local vector caches. "
+             "Tie: op histories over LocalCounter/LocalIntCounter, LocalHistogram, LocalCounterVec/LocalIntCounterVec/LocalHistogramVec of the real crate vs the model; oracle: shared = direct + flushed batches, pending = accumulated since last flush/reset.",
+        note="Amounts are naturals (float rounding outside). Conservation for the local vectors is covered by the differential run and per-step theorems; a whole-history vector theorem is planned.",
+    ),
     "C06": dict(
         text="Kernel-checked over the registry model (collectors_by_id / desc_ids / dim_hashes_by_name as the code keeps them): register_fail_noop and unregister_fail_noop (a refused call returns the registry EQUAL to the one before), "
              "regLoop_ok / register_ok_sound (an admitted collector had no descriptor id in use, agreed with every recorded dimension hash, clashed with no common label, had pairwise distinct descriptors; collector id = wrapping sum), "
